@@ -11,6 +11,7 @@ from typing import Any, Dict, List, Optional, Set, Tuple
 from .core import Finding, Inconclusive, Repo, RuleResult, enclosing, parent, qualname, rule, short, src_of
 from .grammar import PARSER, get_grammar
 from .guards import facts_at
+from .normal import Poly
 from .pymodel import get_model
 from .rules_b import _fstring_shape, _index_descriptor, _is_p0, eval_int, live_alts
 
@@ -509,6 +510,15 @@ def _combine(vs: List[Tuple[str, str]]) -> Tuple[str, str]:
 # --------------------------------------------------------------------------
 
 
+def show_lit_safe(k: Any, t: bool) -> str:
+    from .pyflow import show_lit
+
+    try:
+        return show_lit(k, t)
+    except Exception:
+        return str(k)[:120]
+
+
 @rule("F4", "the -F list only selects encoder/decoder blocks, with one predicate, and never reaches a template")
 def f4(repo: Repo) -> RuleResult:
     res = RuleResult("F4", floor=3)
@@ -523,53 +533,79 @@ def f4(repo: Repo) -> RuleResult:
                 for n in ast.walk(fi.node):
                     if isinstance(n, ast.Attribute) and n.attr == attr and isinstance(n.ctx, ast.Load):
                         sites.append((fi, n))
-    plumbing = {"Renderer.render_string"}
     selectors = []
     for fi, n in sites:
-        if fi.qual in plumbing:
+        par = parent(n)
+        # handing the list on under the same name (constructor keyword / attribute copy) is plumbing
+        if (isinstance(par, ast.keyword) and par.arg == attr) or (isinstance(par, ast.Assign) and any(isinstance(t, ast.Attribute) and t.attr == attr for t in par.targets)) or (isinstance(par, ast.IfExp) and isinstance(parent(par), ast.keyword) and parent(par).arg == attr):
             res.inst(part="plumbing", where=fi.qual)
             continue
-        selectors.append((fi, n))
+        if fi.qual not in [f.qual for f, _ in selectors]:
+            selectors.append((fi, n))
     if len(selectors) < 3:
         res.unsure(f"F4: only {len(selectors)} readers of the -F list found (3 confirmed by hand: C source, C header, Go)")
+    from .flows import compiler_flow
+    from .normal import show
+    from .pyflow import single_atom
+
+    def mentions(p_: Any, needle: str) -> bool:
+        return needle in show(p_)
+
     for fi, n in selectors:
-        # the value must be bound to a local used only in `if` tests
-        asg = parent(n)
         res.inst(part="selector", where=fi.qual)
-        if not (isinstance(asg, ast.Assign) and len(asg.targets) == 1 and isinstance(asg.targets[0], ast.Name)):
-            res.unsure(f"F4: {fi.qual}: -F list is not bound to a local name")
+        assert fi.cls is not None
+        try:
+            flow = compiler_flow(repo, fi.cls.name, fi.rel.split("/bitproto/")[-1], inline=lambda nm, fn: nm.startswith("_") and not nm.startswith("__") and nm != "_get_ctx_or_raise", pure=("_get_ctx_or_raise",))
+            paths = [p_ for p_ in flow.run(fi.node) if p_.done == "return"]
+        except Inconclusive as e:
+            res.unsure(f"F4: {fi.qual}: {e}")
             continue
-        var = asg.targets[0].id
-        uses = [x for x in ast.walk(fi.node) if isinstance(x, ast.Name) and x.id == var and isinstance(x.ctx, ast.Load)]
-        bad_use = None
-        for u in uses:
-            p = parent(u)
-            in_test = False
-            q = u
-            while p is not None and p is not fi.node:
-                if isinstance(p, ast.If) and q is p.test:
-                    in_test = True
-                    break
-                if isinstance(p, (ast.JoinedStr, ast.Call)) and not (isinstance(p, ast.Call) and False):
-                    if isinstance(p, ast.JoinedStr) or (isinstance(p, ast.Call) and src_of(p.func).endswith(("push", "push_string", "format"))):
-                        break
-                q, p = p, parent(p)
-            if not in_test:
-                bad_use = u
-        if bad_use is not None:
-            res.bad(Finding("F4", fi.rel, bad_use.lineno, fi.qual, src_of(parent(bad_use)), "the -F list is used outside a selection condition (it may influence generated text)", tag=f"{fi.qual}:use"))
+        # classify every path by its literals on the list
+        table: Dict[Tuple[bool, bool], set] = {(a_, b_): set() for a_ in (True, False) for b_ in (True, False)}
+        odd = None
+        leak = None
+        elem = None
+        for p_ in paths:
+            nonempty: Optional[bool] = None
+            member: Optional[bool] = None
+            for k, t in p_.guards:
+                if not any(isinstance(x, Poly) and attr in show(x) for x in k[1:] if isinstance(x, Poly)):
+                    continue
+                if k[0] == "truthy" and show(k[1]).endswith(attr):
+                    nonempty = t
+                elif k[0] == "contains" and show(k[1]).endswith(attr):
+                    member = t
+                    elem = show(k[2])
+                elif k[0] == "isnone" and show(k[1]).endswith(attr):
+                    nonempty = (not t) if nonempty is None else nonempty
+                    if t:
+                        nonempty = False
+                else:
+                    odd = show_lit_safe(k, t)
+            outcome = (show(p_.ret) if p_.ret is not None else "None", tuple(repr(e) for e in p_.effects if e.kind in ("call", "setattr", "store") and e.name not in ("_get_ctx_or_raise",)))
+            if attr in outcome[0] or any(attr in x for x in outcome[1]):
+                leak = outcome
+            # effects/returns that do not depend on the list are compared per case
+            other = tuple(g for g in p_.guard_text() if attr not in g)
+            for a_ in (True, False):
+                for b_ in (True, False):
+                    if (nonempty is None or nonempty == a_) and (member is None or member == b_):
+                        table[(a_, b_)].add((other, outcome))
+        if leak is not None:
+            res.bad(Finding("F4", fi.rel, fi.node.lineno, fi.qual, str(leak)[:200], "the -F list is used outside a selection condition (it may influence generated text)", tag=f"{fi.qual}:use"))
             continue
-        # normal form: skip iff  filter non-empty and d.name not in filter
-        exits = [x for x in ast.walk(fi.node) if isinstance(x, ast.Return) and any(var in src_of(t) for t, _ in facts_at(x, fi.node))]
-        good = False
-        for x in exits:
-            conds = {("" if truth else "not ") + src_of(t) for t, truth in facts_at(x, fi.node) if var in src_of(t)}
-            if conds in ({var, f"d.name not in {var}"}, {var, f"self.d.name not in {var}"}):
-                good = True
-            else:
-                res.bad(Finding("F4", fi.rel, x.lineno, fi.qual, str(sorted(conds)), "a message's encoder/decoder is skipped under a condition other than `-F list non-empty and message name not in it`", witness="-F Foo also drops / keeps other messages", tag=f"{fi.qual}:predicate"))
-        if not good and not exits:
+        if odd is not None:
+            res.unsure(f"F4: {fi.qual}: condition `{odd}` on the -F list is not a truth / membership test")
+            continue
+        full = table[(False, True)]
+        if table[(False, False)] != full or table[(True, True)] != full:
+            res.bad(Finding("F4", fi.rel, fi.node.lineno, fi.qual, "", "a message's encoder/decoder is skipped under a condition other than `-F list non-empty and message name not in it`", witness="-F Foo also drops / keeps other messages", tag=f"{fi.qual}:predicate"))
+            continue
+        if table[(True, False)] == full:
             res.bad(Finding("F4", fi.rel, fi.node.lineno, fi.qual, "", "the -F list is read but selects nothing", tag=f"{fi.qual}:no-effect"))
+            continue
+        if elem is None or not elem.endswith("d.name"):
+            res.unsure(f"F4: {fi.qual}: membership is tested for `{elem}`, expected the dispatched message's name")
     # data-structure dispatchers do not read it; Go keeps struct/size before the filter
     for relsfx, cn in (("impls/c/renderer_h.py", "BlockDataStructuresList"),):
         c = m.mod(relsfx).classes.get(cn)
@@ -580,13 +616,15 @@ def f4(repo: Repo) -> RuleResult:
             res.bad(Finding("F4", c.rel, c.node.lineno, cn, "", "type/constant/size declarations depend on -F", witness="-O -F Foo drops struct Bar", tag=f"{cn}:reads-filter"))
     try:
         gb = m.func("impls/go/renderer.py", "BlockMessageOpMode.blocks")
-        txt = src_of(gb.node)
         res.inst(part="data", where=gb.qual)
-        first_ret = min((x.lineno for x in ast.walk(gb.node) if isinstance(x, ast.Return)), default=0)
-        pre = "\n".join(src_of(s) for s in gb.node.body if s.lineno < first_ret)
-        for need in ("BlockMessageStruct(self.d)", "BlockMessageSizeConst(self.d)", "BlockMessageMethodSize(self.d)"):
-            if need not in pre:
-                res.bad(Finding("F4", gb.rel, gb.node.lineno, gb.qual, need, "Go: struct / size declarations are not emitted before the -F selection", tag=f"go:{need}"))
+        gflow = compiler_flow(repo, "BlockMessageOpMode", "impls/go/renderer.py", pure=("_get_ctx_or_raise",))
+        for p_ in gflow.run(gb.node):
+            if p_.done != "return" or p_.ret is None:
+                continue
+            text = show(p_.ret) + " " + " ".join(repr(e) for e in p_.effects if e.kind == "call" and e.name in ("extend", "append", "insert"))
+            for need in ("BlockMessageStruct(self.d)", "BlockMessageSizeConst(self.d)", "BlockMessageMethodSize(self.d)"):
+                if need not in text:
+                    res.bad(Finding("F4", gb.rel, gb.node.lineno, gb.qual, need, f"Go: struct / size declarations are not emitted on the path under {p_.guard_text()} (they must not depend on the -F selection)", witness="-O -F Foo drops struct Bar", tag=f"go:{need}"))
     except Inconclusive as e:
         res.unsure(f"F4: {e}")
     # header declarations and source definitions use the same predicate: both selectors in C passed the normal form above
